@@ -135,6 +135,10 @@ where
         &self.encoder
     }
 
+    pub(crate) fn skip_foreign_solver_vars(&mut self) {
+        self.encoder.skip_foreign_solver_vars()
+    }
+
     pub fn add_credulous_computation(
         &mut self,
         proved_accepted: Vec<T>,
